@@ -247,6 +247,7 @@ func (c *Ctx) gatedShapeRules(prefix string) {
 // gatedCleanupRule: C11.cleanup / C11.pair
 func (c *Ctx) gatedContainerRules(prefix string) {
 	p, r := c.P, c.R
+	c.ruleGateKeyAgreement(prefix + ".cleanup")
 	tb := p.NewTerms(nil)
 	// --- pair: insertions
 	for _, f := range p.FuncsIn(PkgGated) {
